@@ -40,13 +40,18 @@ package storage
 //@ contract (*FSObject).NewWriter
 //@   modifies nothing
 
-// The walk callback: an entry is listed only if it is a file whose slash-separated
-// path starts with the prefix; a walk error is passed on (the entry may be nil).
+// The walk callback: an entry is listed exactly if it is a file whose
+// slash-separated path starts with the prefix; a walk error is passed on (the
+// entry may be nil); otherwise the callback returns nil, so it never prunes a
+// directory (fs.SkipDir) or stops the walk itself.
 //@ contract Objects$1
 //@   requires err == nil ==> d != nil
 //@   ensures err != nil ==> result == err
+//@   ensures err == nil ==> result == nil
+//@   ensures err == nil && !d.IsDir() && strings.HasPrefix(filepath.ToSlash(path), prefix) ==> len(names) == old(len(names))+1 && names[len(names)-1] == filepath.ToSlash(path)
+//@   ensures !(err == nil && !d.IsDir() && strings.HasPrefix(filepath.ToSlash(path), prefix)) ==> len(names) == old(len(names))
 //@   at call append#1: assert d != nil && !d.IsDir() && strings.HasPrefix(name, prefix)
-//@   modifies nothing
+//@   modifies names
 
 //@ contract (*FSBucket).Objects
 //@   requires b != nil
